@@ -355,6 +355,10 @@ func (rw *ReadWriter) Initialize() error {
 
 			// string or char
 			if goType.Kind() == reflect.String {
+				if field.Type.Kind() == reflect.Array {
+					return fmt.Errorf("arrays of strings are not supported")
+				}
+
 				tagLen := field.Tag.Get("mavlen")
 
 				if len(tagLen) == 0 { // char
